@@ -48,7 +48,9 @@ def read_incidence_matrix(
 
     """
     return from_incidence_matrix(
-        np.loadtxt(path, comments=comments, delimiter=delimiter, encoding=encoding),
+        np.loadtxt(
+            path, comments=comments, delimiter=delimiter, encoding=encoding, ndmin=2
+        ),
         create_using=create_using,
     )
 
